@@ -8,7 +8,7 @@ SEEDS="${1:-2 3 4}"
 TIER="${2:-quick}"
 shift 2 2>/dev/null || true
 PROPS="${*:-C01 C02 C03 C04 C05 C06 C07 C08 C09 C10 C11 C12 C13 C14 C15 C16 C17 C18 C19 C20}"
-(cd "$ROOT/harness" && cp /repo/go.sum . && env GOFLAGS=-mod=mod GOPROXY=off GOSUMDB=off GOTOOLCHAIN=local GOWORK=off go build -o "$ROOT/bin/verif" ./cmd/verif) || exit 2
+(cd "$ROOT/harness" && cp "${VERIF_REPO:-/repo}/go.sum" . && env GOFLAGS=-mod=mod GOPROXY=off GOSUMDB=off GOTOOLCHAIN=local GOWORK=off go build -o "$ROOT/bin/verif" ./cmd/verif) || exit 2
 bad=0
 for s in $SEEDS; do
   for p in $PROPS; do
